@@ -33,6 +33,11 @@ Record rule := {
 Record dcfg := { allow : list rule; deny : list rule; default_deny : bool; prefer_allow : bool }.
 
 Definition u16 (n : nat) : nat := N.to_nat (N.of_nat n mod 65536). (* uint16(n) *)
+(* strings.ToLower on the question name: miekg/dns presents names in ASCII (other bytes are escaped as \DDD), so only
+   the letters A-Z change *)
+Definition lower_byte (b : byte) : byte :=
+  if (65 <=? bN b)%N && (bN b <=? 90)%N then match Byte.of_N (bN b + 32) with Some c => c | None => b end else b.
+Definition lower_ascii (s : list byte) : list byte := map lower_byte s.
 Definition nonempty (s : list byte) : bool := match s with [] => false | _ => true end.
 Definition nel {A} (l : list A) : bool := match l with [] => false | _ => true end.
 
@@ -66,9 +71,10 @@ Section Dns.
             | Some typ =>
                 let hasNoAllow := negb (nel (allow c)) in
                 let hasNoDeny := negb (nel (deny c)) in
-                let denied := rules_match (deny c) cls typ (q_name q) in
+                let name := lower_ascii (q_name q) in     (* nameValue := strings.ToLower(q.Name) *)
+                let denied := rules_match (deny c) cls typ name in
                 if hasNoAllow && negb hasNoDeny && denied then false else
-                let allowed := rules_match (allow c) cls typ (q_name q) in
+                let allowed := rules_match (allow c) cls typ name in
                 if hasNoDeny && negb hasNoAllow && negb allowed then false else
                 if denied then
                   if negb allowed || negb (prefer_allow c) then false else questions_loop c rest
@@ -126,6 +132,7 @@ Section Dns.
     else N.of_nat (dns_hdr + dns_min_msg + 2 * length p).
 
   (* ---- the specification of the rule table, written from the field documentation of MatchDNS ----
+     names are case-insensitive (RFC 4343): literal and regexp name filters both see the name in lower case
      no rules                        : every question passes (class and type are not even looked up)
      rules present                   : class and type must be known to the library, and then
        denied and allowed            : passes iff prefer_allow
@@ -136,8 +143,8 @@ Section Dns.
   Definition question_spec (c : dcfg) (q : question) : bool :=
     match q_class q, q_type q with
     | Some cls, Some typ =>
-        let a := rules_match (allow c) cls typ (q_name q) in
-        let d := rules_match (deny c) cls typ (q_name q) in
+        let a := rules_match (allow c) cls typ (lower_ascii (q_name q)) in
+        let d := rules_match (deny c) cls typ (lower_ascii (q_name q)) in
         match d, a with
         | true, true => prefer_allow c
         | true, false => false
